@@ -304,6 +304,7 @@ def with_shared(base_fn, shares):
 
 _c01, _c02, _c03, _c04, _c05, _c06, _c07, _c08, _c16 = c01, c02, c03, c04, c05, c06, c07, c08, c16
 c03 = with_shared(_c03, [(_c16, {'C16.O1': 'C03.j'}, 'a routine record is complete (final frame size, argument count, stack map) whenever a call can read it: records are written only when a routine is finished'),
+                         (c19, {'C19.F1': 'C03.n'}, 'the frame a call gets has the size its PREPARE declares: the machine appends exactly prepare.count words, so every register operand of the routine lies inside its frame'),
                          (_c02, {'C02.k': 'C03.m'}, 'the generator keeps its tables without undefined behaviour: no reference into a container is used after the element was removed'),
                          (_c08, {'C08.a': 'C03.l', 'C08.b': 'C03.l2'}, 'the debugger rewrites the opcode at every site listed for a location: the listed sites are exactly the marker instructions, so no jump, call or return of the program is ever turned into a marker'),
                          (_c04, {'C04.e': 'C03.k'}, 'marks are resolved within the routine that uses them and a jump to a mark that routine does not define is rejected, so every jump lands inside its own routine')])
@@ -325,6 +326,7 @@ c02 = with_shared(_c02, [(c15, {'C15.I4': 'C02.g', 'C15.I6': 'C02.g2'}, 'scannin
                          (c11, {'C11.a': 'C02.i'}, 'macro expansion does work bounded by the pass budget: at most `passes` rewrites'),
                          (c12, {'C12.a': 'C02.j', 'C12.f': 'C02.j2'}, 'the conflict error of a definition is located at that definition\'s own first pattern token, a position in a supplied file')])
 c04 = with_shared(_c04, [(c09, {'C09.g': 'C04.l'}, 'the built-in id+int / id-int sugar is applied wherever it occurs: every start position of the text is tried'),
+                         (c14, {'C14.L7': 'C04.n'}, 'the scanner that is compiled in is the one the specification describes: the committed tables accept exactly the documented spellings of every keyword'),
                          (c11, {'C11.a': 'C04.m'}, 'a source with fewer sugar uses than the pass budget is expanded completely: the budget loop makes exactly budget passes'),
                          (c20, {'C20.A2': 'C04.f', 'C20.A3': 'C04.f2'}, 'every literal that reaches an instruction is range-checked'),
                          (c14, {'C14.L2': 'C04.g'}, 'the terminals have their documented lexical form'),
@@ -343,6 +345,7 @@ c06 = with_shared(_c06, [(_c08, {'C08.c': 'C06.j'}, 'the location reported at a 
                          (_c05, {'C05.b': 'C06.f'}, 'break handlers advance by exactly one instruction, so no site is skipped and the location lookup finds the site just passed'),
                          (_c08, {'C08.a': 'C06.g', 'C08.b': 'C06.g2'}, 'the site armed for a location is the marker emitted for that location and line_info names the same location for it, so a stop is reported at the line that was enabled')])
 c07 = with_shared(_c07, [(c18, {'C18.P2': 'C07.q'}, 'a variable view shows this activation only: the accessor keeps nothing from an earlier call'),
+                         (_c05, {'C05.d': 'C07.r'}, 'execute() only drives executeSingle(): stepping by executeSingle() and resuming by execute() go through the same code, neither keeps state of its own (caches, counters) that the other would have to invalidate'),
                          (_c01, {'C01.f': 'C07.p'}, 'a user variable has a register of its own and is listed: no temporary is registered under a name a user variable can have, none is used after its release'),
                          (_c03, {'C03.e': 'C07.n'}, 'every parameter has a register (and stack-map entry) of its own, so the view shows each variable with its own value'),
                          (c17, {'C17.Z1': 'C07.l'}, 'after a reset no activation of the earlier run is left: the view lists the activations of this run only'),
@@ -351,21 +354,26 @@ c07 = with_shared(_c07, [(c18, {'C18.P2': 'C07.q'}, 'a variable view shows this 
                          (c08, {'C08.a': 'C07.i'}, 'a site is created (and listed) on every call of breakpoint()'),
                          (_c03, {'C03.f': 'C07.j'}, 'a call enters the routine of the latest definition under that name, so the lines visited and the variables listed are those of the routine the source calls')])
 c08 = with_shared(_c08, [(_c06, {'C06.b': 'C08.f', 'C06.c': 'C08.f2', 'C06.e': 'C08.g'}, 'the VM never adds a location: enable/clear only touch listed locations; locations are keyed by an order that keeps distinct (file, line) pairs apart'),
-                         (_c05, {'C05.a': 'C08.f3'}, 'the VM writes only opcodes at listed sites')])
+                         (_c05, {'C05.a': 'C08.f3'}, 'the VM writes only opcodes at listed sites'),
+                         (c14, {'C14.S4': 'C08.h'}, 'a location is a line of the file as it was supplied: the scanner reads the content unmodified (rewriting line ends before scanning shifts every line number)')])
 c16 = with_shared(_c16, [(_c05, {'C05.b': 'C16.O7'}, 'every instruction, a breakpoint marker included, advances the machine: a halting program also halts when it is stepped'),
+                         (_c01, {'C01.a': 'C16.O11'}, 'the LOOP counter is counted down by ADD_CONST with constant -1: the handler computes max(0, min(INT_MAX, source + constant)) for every source value, INT_MAX included'),
                          (c17, {'C17.Z3': 'C16.O8'}, 'the end of the program is recognised as "the opcode at ip is HALT": a driver that runs until isDone() ends exactly when the program halted'),
                          (_c08, {'C08.a': 'C16.O9'}, 'arming a line rewrites only marker instructions: the counter initialisation of a LOOP is never overwritten, so the number of iterations is the bound at entry'),
-                         (c17, {'C17.Z1': 'C16.O4'}, 'a reset machine has no activations, so the activation bound also holds across resets'),
+                         (c17, {'C17.Z1': 'C16.O4', 'C17.Z4': 'C16.O10'}, 'a reset machine has no activations, so the activation bound also holds across resets; the end of the program is absorbing - '
+                               'execute() only drives executeSingle() and writes no machine state itself, so a finished machine is not started again on top of its old activations'),
                          (_c03, {'C03.g': 'C16.O5'}, 'every jump is resolved to a set label of its own routine: an unresolved jump would land on the root PREPARE and push activations without bound'),
                          (c20, {'C20.A1': 'C16.O6'}, 'register values never become negative, so a LOOP counter that is decremented reaches zero')])
 _c09, _c12, _c14, _c17, _c18, _c20 = c09, c12, c14, c17, c18, c20
 c09 = with_shared(_c09, [(c18, {'C18.P2': 'C09.k'}, 'the detectors that are applied are built from the definitions given to this call: nothing is kept from an earlier call'),
+                         (_c12, {'C12.f': 'C09.m'}, 'every definition takes part in the choice of the next step: no definition is left without a detector, so priority decides and not the order of definition'),
                          (c11, {'C11.d': 'C09.l'}, 'rewriting repeats until no pattern matches, within the documented budget: the front end passes the constant budget, not one derived from the input'),
                          (_c12, {'C12.f': 'C09.j'}, 'every definition is matched by a detector built from that very definition (and the caller\'s definitions are left intact for the next call)')])
 c12 = with_shared(_c12, [(_c09, {'C09.h': 'C12.h'}, 'conflicts are judged against the grammar of the language: the pattern grammar derives exactly the language\'s values, argument lists and statement sequences')])
 c14 = with_shared(_c14, [(c15, {'C15.I4': 'C14.S5'}, 'an include is replaced by the tokens of the named file exactly once per directive: a file that is being scanned is not entered again'),
                          (_c02, {'C02.f': 'C14.S6'}, 'synthesised tokens (the final end-of-file token) are labelled with the position of the last scanned token')])
 c17 = with_shared(_c17, [(_c18, {'C18.P6': 'C17.Z9'}, 'a newly constructed machine starts from the compiled program, not from one that another machine has armed: the program is copied at construction'),
+                         (_c06, {'C06.c': 'C17.Z10'}, 'what is armed is what is recorded as enabled: a request for a location that is not listed has no effect at all, so reset() and clearBreakpoints(), which restore the sites of the recorded locations, restore every armed site'),
                          (_c08, {'C08.a': 'C17.Z6', 'C08.b': 'C17.Z7'}, 'reset() puts POTENTIAL_BREAK at every listed site: the listed sites are exactly the marker instructions, otherwise a reset machine runs a different program than a fresh one'),
                          (_c06, {'C06.d': 'C17.Z8'}, 'before execution starts and after a reset the current location is none: the lookup is exact (ip - 1 is no site)'),
                          (_c06, {'C06.b': 'C17.Z5'}, 'the enabled set and the armed sites change together: disabling one location leaves the others listed, so reset() can disarm them')])
@@ -385,6 +393,8 @@ c12 = with_shared(c12, [(_c11, {'C11.c': 'C12.j'}, 'the conflict errors of macro
                         (_c02, {'C02.e': 'C12.i'}, 'a reported ambiguity makes the result incorrect: correctness is decided after the errors of macro application were merged')])
 _c10 = c10
 c10 = with_shared(_c10, [(_c03, {'C03.g': 'C10.f'}, 'different names denote different variables only if the register numbers they are mapped to are kept whole: no operand type narrower than the numbers the generator computes'),
+                         (_c01, {'C01.f': 'C10.h'}, 'different names denote different variables: the generator finds a register under the whole name (names of temporaries differ at their end) and no '
+                                'temporary register of the generator has a name a macro temporary or a user variable can have'),
                          (c14, {'C14.L2': 'C10.g'}, 'equal n means equal spelling: the scanner admits exactly one spelling of a temporary\'s number (no leading zeros)'),
                          (_c11, {'C11.a': 'C10.e'}, 'every rewriting step has a pass number of its own: at most one rewrite per iteration of the budget loop, whose counter is the number the temporaries are named after')])
 c19 = with_shared(_c19, [(c18, {'C18.P1': 'C19.F7'}, 'the data memory belongs to one machine: it is a member of the VM object, not an object with static storage that all machines share'),
